@@ -68,12 +68,20 @@ class Lock:
         self.f.close()
 
 
-def _prune_cache(keep=6):
+def _prune_cache(keep=24, min_age_s=3 * 3600):
+    """drop old implementation builds: only beyond `keep` AND unused for min_age_s
+    (a concurrently running check may still be using its build)"""
     try:
         ds = [os.path.join(CACHE, d) for d in os.listdir(CACHE) if d.startswith("impl-")]
         ds.sort(key=lambda d: os.path.getmtime(d))
+        now = time.time()
         for d in ds[:-keep]:
-            shutil.rmtree(d, ignore_errors=True)
+            if now - os.path.getmtime(d) > min_age_s:
+                shutil.rmtree(d, ignore_errors=True)
+                try:
+                    os.unlink(os.path.join(CACHE, "lock-" + os.path.basename(d)[5:]))
+                except OSError:
+                    pass
     except OSError:
         pass
 
